@@ -2,6 +2,7 @@ package batching
 
 import (
 	"context"
+	"sync"
 
 	"reduction.dev/reduction/util/verifhook"
 )
@@ -17,6 +18,10 @@ type ReorderFetcher[T, R any] struct {
 	fetchBatch BatchFetcher[T, R]
 	errChan    chan error
 	buffer     *ReorderBuffer[[]R]
+
+	// Taking a batch and reserving its place in the output order must happen as
+	// one step: the size-triggered and time-out flushers run concurrently.
+	flushMu sync.Mutex
 }
 
 type NewReorderFetcherParams[T, R any] struct {
@@ -71,16 +76,19 @@ func (d *ReorderFetcher[T, R]) Flush(ctx context.Context) {
 
 // flush the current batch and then asynchronously run the `FetchBatch` callback.
 func (d *ReorderFetcher[T, R]) flush(ctx context.Context, token BatchToken) {
+	d.flushMu.Lock()
 	events := d.batcher.Flush(token)
 	if d.batcher == nil {
 		panic("batcher became nil")
 	}
 	if len(events) == 0 {
+		d.flushMu.Unlock()
 		return
 	}
 
 	verifhook.Point("reorder-fetcher-flush")
 	seqNum := d.buffer.Reserve()
+	d.flushMu.Unlock()
 	go func() {
 		result, err := d.fetchBatch(ctx, events)
 		if err != nil {
